@@ -383,6 +383,7 @@ package memberlist
 //@   ensures len [C12,C14]: len(result) == len(first) + len(second)
 //@   ensures head [C12,C14]: forall i int :: 0 <= i && i < len(first) ==> result[i] == first[i]
 //@   ensures tail [C12,C14]: forall i int :: 0 <= i && i < len(second) ==> result[len(first) + i] == second[i]
+//@   ensures own [C12,C14,C15]: len(first) > 0 && len(second) > 0 ==> fresh(result)     // two non-empty parts are joined in a buffer of their own
 
 //@ func decryptMessage(key, msg, data)
 //@   safety [C12,C13]
@@ -640,6 +641,7 @@ package memberlist
 //@   requires vsn: vsn <= 1
 //@   ensures bound [C11,C12]: forall n int :: n >= 0 ==> encLen(vsn, n) <= n + result
 
+//@ ghost $bufArr int
 //@ func (*Memberlist).encryptLocalState(m, sendBuf, streamLabel)
 //@   safety [C12,C13,C20]
 //@   modular
@@ -647,6 +649,8 @@ package memberlist
 //@   at call (*Memberlist).encryptionVersion: set $vsnS := res
 //@   at call (encoding/binary.bigEndian).PutUint32: assert len-field [C12]: len(sendBuf) <= 4000000000 ==> v == encLen($vsnS, len(sendBuf))
 //@   at call encryptPayload: assert aad-header [C12,C14]: len(data) == 5 + len(streamLabel)
+//@   at call (*bytes.Buffer).Bytes #1: set $bufArr := arr(res)
+//@   at call encryptPayload: assert aad-outside-output [C12,C14,C15]: len(data) == 5 || arr(data) != $bufArr     // beyond the five header bytes the associated data does not live in the buffer the ciphertext is written to (it would be overwritten before it is used)
 //@   ensures framed [C12]: result1 == nil ==> len(result0) == 5 + encLen($vsnS, len(sendBuf))
 //@   at call (*Keyring).GetPrimaryKey: set $encErr := 1
 //@   at call (*Keyring).GetPrimaryKey: set $primary := res
